@@ -179,28 +179,31 @@ func H08c() {
 // replay they run concurrently under the race detector.
 func H09() {
 	s1 := vGenStream(vKindsParam(), true)
-	s2 := vGenStream([]int{vKindLap, vKindCompressed}, false)
+	s2 := vGenStream([]int{vKindLap, vKindCompressed, vKindUnknownFld, vKindUnknownMsg}, false)
 	vResetAccumulators()
 	vTrackShared(true)
 	var f1, f2 *File
 	var e1, e2 error
 	var w1 bytes.Buffer
+	// one option value, built once, handed to both calls (options are
+	// values a caller may keep in a package-level slice)
+	opts := []DecodeOption{WithUnknownFields(), WithUnknownMessages()}
 	vPar(func() {
-		f1, e1 = Decode(bytes.NewReader(s1.data))
+		f1, e1 = Decode(bytes.NewReader(s1.data), opts...)
 		if e1 == nil {
 			_ = Encode(&w1, f1, binary.LittleEndian)
 		}
 		_ = CheckIntegrity(bytes.NewReader(s1.data), false)
 	}, func() {
-		f2, e2 = Decode(bytes.NewReader(s2.data))
-		_, _ = DecodeChained(bytes.NewReader(s2.data))
+		f2, e2 = Decode(bytes.NewReader(s2.data), opts...)
+		_, _ = DecodeChained(bytes.NewReader(s2.data), opts...)
 		_ = CheckIntegrity(bytes.NewReader(s2.data), false)
 	})
 	vAssert(vSharedWrites() == 0, "C09.no-shared-object-is-written")
 	vTrackShared(false)
 	// each call returned what it returns when run alone
-	a1, ae1 := Decode(bytes.NewReader(s1.data))
-	a2, ae2 := Decode(bytes.NewReader(s2.data))
+	a1, ae1 := Decode(bytes.NewReader(s1.data), WithUnknownFields(), WithUnknownMessages())
+	a2, ae2 := Decode(bytes.NewReader(s2.data), WithUnknownFields(), WithUnknownMessages())
 	vAssert((e1 == nil) == (ae1 == nil) && (e2 == nil) == (ae2 == nil), "C09.same-result-as-alone")
 	if f1 != nil && a1 != nil && f2 != nil && a2 != nil {
 		vSameContent(f1, a1, 3, "C09.same-result-as-alone")
